@@ -83,6 +83,8 @@ pub enum Op {
     Flush,
     Compact(u64),
     Reopen,
+    /// one pass of the offline verifier (LsmVerifier::verify), which unlinks verified trash
+    Verify,
 }
 
 impl Op {
@@ -103,6 +105,7 @@ impl Op {
             Op::Flush => "flush".into(),
             Op::Compact(n) => format!("compact:{}", n),
             Op::Reopen => "reopen".into(),
+            Op::Verify => "verify".into(),
         }
     }
 }
@@ -169,8 +172,10 @@ pub fn gen_history(rng: &mut Rng, len: usize, nkeys: usize, mode: u64) -> Vec<Op
                 ops.push(Op::Compact(1));
             }
             Op::Compact(1)
-        } else {
+        } else if r < 98 {
             Op::Reopen
+        } else {
+            Op::Verify
         };
         ops.push(op);
     }
@@ -254,6 +259,15 @@ pub struct Sim {
     pub compactions: u64,
     pub reopens: u64,
     pub stalled_unselectable: u64,
+    pub verifier_passes: u64,
+    pub verifier_backoffs: u64,
+    /// what the last verifier pass returned: "ok", "backoff:<name>" or "error:<text>"
+    pub last_verify: String,
+    /// manifest history as the harness saw it: per fragment file name the number of edits already
+    /// recorded, and per SST digest the (edit ordinal, '+'|'-') events in order
+    pub frag_seen: BTreeMap<String, usize>,
+    pub sst_events: BTreeMap<String, Vec<(u64, char)>>,
+    pub edit_ordinal: u64,
     /// every compaction the selector chose, with the store state it was chosen in
     pub chosen: Vec<(StateDump, lsmtk::verif::ChosenCompaction)>,
 }
@@ -278,7 +292,7 @@ impl Sim {
     pub fn open(root: &str, cfg: &Cfg) -> Result<Sim, String> {
         let opts = cfg.options(root);
         let kvs = KeyValueStore::open(opts).map_err(|e| err_class(&e))?;
-        Ok(Sim { root: root.to_string(), cfg: cfg.clone(), kvs: Some(kvs), oracle: BTreeMap::new(), flushes: 0, compactions: 0, reopens: 0, stalled_unselectable: 0, chosen: vec![] })
+        Ok(Sim { root: root.to_string(), cfg: cfg.clone(), kvs: Some(kvs), oracle: BTreeMap::new(), flushes: 0, compactions: 0, reopens: 0, stalled_unselectable: 0, verifier_passes: 0, verifier_backoffs: 0, last_verify: String::new(), frag_seen: BTreeMap::new(), sst_events: BTreeMap::new(), edit_ordinal: 0, chosen: vec![] })
     }
 
     pub fn kvs(&self) -> &KeyValueStore {
@@ -357,6 +371,14 @@ impl Sim {
     }
 
     pub fn apply(&mut self, op: &Op) -> Result<(), String> {
+        let r = self.apply_inner(op);
+        if self.kvs.is_some() {
+            self.track_manifest();
+        }
+        r
+    }
+
+    fn apply_inner(&mut self, op: &Op) -> Result<(), String> {
         match op {
             Op::Put(k, v) => {
                 self.kvs().put(k, v).map_err(|e| format!("put-error:{}", err_class(&e)))?;
@@ -384,6 +406,10 @@ impl Sim {
             }
             Op::Flush => self.flush().map(|_| ()),
             Op::Compact(n) => self.compact(*n).map(|_| ()),
+            Op::Verify => {
+                self.verify_pass();
+                Ok(())
+            }
             Op::Reopen => {
                 self.kvs = None;
                 let opts = self.cfg.options(&self.root);
@@ -393,6 +419,118 @@ impl Sim {
                 Ok(())
             }
         }
+    }
+
+    /// one pass of the offline verifier over the store's directory (the store stays open, as the
+    /// verifier is a separate tool working on mani/ fragments, trash/ and its own verify/ manifest)
+    pub fn verify_pass(&mut self) {
+        self.verifier_passes += 1;
+        let opts = self.cfg.options(&self.root);
+        let r = match lsmtk::LsmVerifier::open(opts) {
+            Ok(mut v) => v.verify(),
+            Err(e) => Err(e),
+        };
+        self.last_verify = match r {
+            Ok(()) => "ok".to_string(),
+            Err(e) => match lsmtk::backoff_path(&e) {
+                Some(p) => {
+                    self.verifier_backoffs += 1;
+                    if std::env::var("BLUE_DEBUG").is_ok() {
+                        eprintln!("verifier backoff on {} ; logs {:?} trash {:?}", p, self.listing().get("logs"), self.listing().get("trash").map(|v| v.iter().filter(|x| x.starts_with("log")).cloned().collect::<Vec<_>>()));
+                    }
+                    format!("backoff:{}", p)
+                }
+                None => {
+                    if std::env::var("BLUE_DEBUG").is_ok() {
+                        eprintln!("verifier error: {:?}", e);
+                        let txt = format!("{:?}", e);
+                        if let Some(i) = txt.find("trash/") {
+                            let name = &txt[i + 6..i + 6 + 64];
+                            eprintln!("missing {} events {:?}", name, self.sst_events.get(name));
+                            let mut frags: Vec<_> = std::fs::read_dir(format!("{}/mani", self.root)).unwrap().flatten().map(|e| e.path()).collect();
+                            frags.sort();
+                            for f in frags {
+                                if let Ok(it) = mani::ManifestIterator::open(&f) {
+                                    for (n, ed) in it.enumerate() {
+                                        if let Ok(ed) = ed {
+                                            let a = ed.added().any(|x| x == name);
+                                            let r = ed.rmed().any(|x| x == name);
+                                            if a || r {
+                                                eprintln!("  {} edit {}: added={} rmed={} D={:?} nadd={} nrm={}", f.display(), n, a, r, ed.get_info('D').map(|d| &d[..8]), ed.added().count(), ed.rmed().count());
+                                            }
+                                        }
+                                    }
+                                }
+                            }
+                            let vm = format!("{}/verify", self.root);
+                            eprintln!("  verify dir: {:?}", std::fs::read_dir(&vm).map(|r| r.flatten().map(|e| e.file_name()).collect::<Vec<_>>()));
+                        }
+                    }
+                    format!("error:{}", err_class(&e))
+                }
+            },
+        };
+    }
+
+    /// record the manifest edits written since the last call (fragments are append-only and a
+    /// rolled-over fragment repeats the state in its first edit, which is skipped)
+    pub fn track_manifest(&mut self) {
+        let dir = format!("{}/mani", self.root);
+        let mut frags: Vec<(u64, std::path::PathBuf)> = vec![];
+        if let Ok(rd) = std::fs::read_dir(&dir) {
+            for e in rd.flatten() {
+                let p = e.path();
+                if let Some(n) = mani::extract_backup(&p) {
+                    frags.push((n, p));
+                }
+            }
+        }
+        frags.sort();
+        let next = frags.last().map(|x| x.0 + 1).unwrap_or(1);
+        frags.push((next, mani::MANIFEST(&dir)));
+        for (n, p) in frags {
+            // the live MANIFEST becomes MANIFEST.<n> at the next rollover: key by that number
+            let key = format!("{}", n);
+            let seen = *self.frag_seen.get(&key).unwrap_or(&0);
+            let Ok(it) = mani::ManifestIterator::open(&p) else { continue };
+            let mut count = 0;
+            for (i, ed) in it.enumerate() {
+                let Ok(ed) = ed else { break };
+                count = i + 1;
+                if i < seen || i == 0 {
+                    continue;
+                }
+                self.edit_ordinal += 1;
+                for r in ed.rmed() {
+                    self.sst_events.entry(r.clone()).or_default().push((self.edit_ordinal, '-'));
+                }
+                for a in ed.added() {
+                    self.sst_events.entry(a.clone()).or_default().push((self.edit_ordinal, '+'));
+                }
+            }
+            if count > seen {
+                self.frag_seen.insert(key, count);
+            }
+        }
+    }
+
+    /// names present in sst/, trash/, mani/, verify/ and the log files in the root
+    pub fn listing(&self) -> std::collections::BTreeMap<String, Vec<String>> {
+        let mut m = std::collections::BTreeMap::new();
+        for sub in ["sst", "trash", "mani", "verify", "compaction", "tmp", "."] {
+            let mut v: Vec<String> = vec![];
+            if let Ok(rd) = std::fs::read_dir(format!("{}/{}", self.root, sub)) {
+                for e in rd.flatten() {
+                    let n = e.file_name().to_string_lossy().to_string();
+                    if sub != "." || n.starts_with("log.") {
+                        v.push(n);
+                    }
+                }
+            }
+            v.sort();
+            m.insert(if sub == "." { "logs".to_string() } else { sub.to_string() }, v);
+        }
+        m
     }
 
     pub fn get(&self, k: &[u8]) -> Result<Option<Vec<u8>>, String> {
